@@ -75,6 +75,7 @@
 //!
 //! For further details on how to use the cache, see the [LruCache] struct.
 
+use std::alloc::Layout;
 use std::borrow::Borrow;
 use std::fmt::{self, Debug, Formatter};
 use std::hash::{BuildHasher, Hash};
@@ -691,13 +692,35 @@ where
 
     fn try_reallocate(&mut self, new_capacity: usize) -> Result<(), TryReserveError> {
         let hasher = make_hasher(&self.hash_builder);
+
+        // Compute all hashes before anything is changed. The hasher runs user
+        // code, and if it panicked while the entries are being moved, the
+        // list would be left with links into the table that is dropped
+        // during unwinding.
+
+        let len = self.table.len();
+        let mut hashes = Vec::new();
+        hashes.try_reserve_exact(len).map_err(|_|
+            match Layout::array::<u64>(len) {
+                Ok(layout) => TryReserveError::AllocError { layout },
+                Err(_) => TryReserveError::CapacityOverflow
+            })?;
+
+        for bucket in unsafe { self.table.iter() } {
+            hashes.push(hasher(unsafe { bucket.as_ref() }));
+        }
+
         let mut old_table = RawTable::try_with_capacity(new_capacity)?;
         mem::swap(&mut self.table, &mut old_table);
 
-        for entry in old_table.into_iter() {
+        // The owning iterator visits the entries in the same order as the
+        // borrowing one above. The new table has room for all of them, as
+        // new_capacity is never below the number of entries.
+
+        for (entry, hash) in old_table.into_iter().zip(hashes) {
             let mut prev_entry = entry.prev;
             let mut next_entry = entry.next;
-            let bucket = self.table.insert(hasher(&entry), entry, &hasher);
+            let bucket = self.table.insert(hash, entry, &hasher);
             let entry_ptr = EntryPtr::new(bucket.as_ptr());
             prev_entry.get_mut().next = entry_ptr;
             next_entry.get_mut().prev = entry_ptr;
